@@ -262,6 +262,8 @@ type harnessReport struct {
 	WallS      float64                `json:"wall_s"`
 	NativeRepl bool                   `json:"native_replay_available"`
 	Note       string                 `json:"note,omitempty"`
+	LockOrder  []string               `json:"lock_order_edges,omitempty"`
+	LockStats  map[string]int64       `json:"lock_recorder,omitempty"`
 }
 
 func main() {
@@ -396,6 +398,10 @@ func cmdCheck(args []string) int {
 			Asserts: run.asserts, Covers: run.covers, Known: run.known, Undecided: run.undecided,
 			Inexact: run.inexact, Fallbacks: run.fallbacks, Steps: run.steps, MaxDepth: run.maxDepth, WallS: run.wall.Seconds(),
 			NativeRepl: h.Native, Note: h.Note,
+		}
+		if eng.lockset != nil {
+			rep.LockOrder = eng.lockset.edgeList()
+			rep.LockStats = map[string]int64{"guarded_field_accesses_checked": eng.lockset.accesses, "lock_acquisitions": eng.lockset.acquires, "unguarded_accesses": int64(len(eng.lockset.unguarded))}
 		}
 		reports = append(reports, rep)
 		totalPaths += run.paths
